@@ -270,6 +270,74 @@ fn vp_native_redirect_chains() {
     println!("VP-NATIVE redirect_chains cases={}", cases);
 }
 
+/// C09: redirect chains enumerated: status x chain length x max_redirections x Location form x follow on/off; the server counts
+/// requests before it answers, so the number of requests sent is exact
+#[test]
+fn vp_native_redirect_matrix() {
+    let seen: Arc<Mutex<Vec<String>>> = Arc::new(Mutex::new(Vec::new()));
+    let seen2 = seen.clone();
+    let port = serve(Arc::new(Mutex::new(Vec::new())), move |line, port| {
+        let target = line.split(' ').nth(1).unwrap_or("").to_string();
+        seen2.lock().unwrap().push(target.clone());
+        // /c/<status>/<n>/<form>/x   or   /q/<status>/x?h=<n>
+        let (path, query) = match target.split_once('?') { Some((p, q)) => (p.to_string(), Some(q.to_string())), None => (target.clone(), None) };
+        let seg: Vec<&str> = path.split('/').collect();
+        if seg.len() >= 4 && seg[1] == "q" {
+            let status: u16 = seg[2].parse().unwrap(); let n: u32 = query.as_deref().and_then(|q| q.strip_prefix("h=")).and_then(|v| v.parse().ok()).unwrap_or(0);
+            return if n == 0 { resp(200, None, "end") } else { resp(status, Some(&format!("?h={}", n - 1)), "") };
+        }
+        if seg.len() >= 6 && seg[1] == "c" {
+            let status: u16 = seg[2].parse().unwrap(); let n: u32 = seg[3].parse().unwrap(); let form = seg[4];
+            if n == 0 { return resp(200, None, "end"); }
+            let next = format!("/c/{}/{}/{}/x", status, n - 1, form);
+            let loc = match form {
+                "abs" => format!("http://127.0.0.1:{}{}", port, next),
+                "schemerel" => format!("//127.0.0.1:{}{}", port, next),
+                "path" => next.clone(),
+                "rel" => format!("../../{}/{}/x", n - 1, form),
+                "dot" => format!("./../.././{}/{}/./y/../x", n - 1, form),
+                "frag" => format!("{}#sec-{}", next, n),
+                _ => next.clone(),
+            };
+            return resp(status, Some(&loc), "");
+        }
+        match &path[..] { "/noloc" => resp(302, None, ""), "/badloc" => resp(302, Some("http://[bad"), ""), "/ftploc" => resp(302, Some("ftp://127.0.0.1/x"), ""), _ => resp(404, None, "nf") }
+    });
+    let base = format!("http://127.0.0.1:{}", port);
+    let s = { let mut s = crate::Session::new(); s.proxy_settings(crate::ProxySettings::builder().build()); s };
+    let mut cases = 0u64;
+    for status in [300u16, 301, 302, 303, 304, 305, 306, 307, 308, 399] { for n in 0u32..4 { for max in [0u32, 1, 2, 5] {
+        for form in ["abs", "schemerel", "path", "rel", "dot", "frag", "query"] { for follow in [true, false] {
+            let (start, last) = if form == "query" { (format!("{}/q/{}/x?h={}", base, status, n), format!("{}/q/{}/x?h=0", base, status)) }
+                                else { (format!("{}/c/{}/{}/{}/x", base, status, n, form), format!("{}/c/{}/0/{}/x", base, status, form)) };
+            seen.lock().unwrap().clear();
+            let res = s.get(&start).max_redirections(max).follow_redirects(follow).send();
+            let sent = seen.lock().unwrap().clone();
+            cases += 1;
+            let ctx = format!("status {} chain {} max_redirections {} Location form {} follow {}", status, n, max, form, follow);
+            let followed = follow && [301u16, 302, 303, 307, 308].contains(&status) && n > 0;
+            assert!(sent.iter().all(|t| !t.contains('#')), "a fragment was sent: {:?} ({})", sent, ctx);
+            if !followed {
+                assert_eq!(sent.len(), 1, "exactly one request: {} -> {:?}", ctx, sent);
+                let r = res.unwrap_or_else(|e| panic!("{}: {}", ctx, e));
+                assert_eq!(r.status().as_u16(), if n == 0 { 200 } else { status }, "{}", ctx);
+                assert_eq!(r.url().as_str(), start, "{}", ctx);
+            } else if n <= max {
+                assert_eq!(sent.len() as u32, n + 1, "one request per hop: {} -> {:?}", ctx, sent);
+                let r = res.unwrap_or_else(|e| panic!("{}: {}", ctx, e));
+                assert_eq!(r.status().as_u16(), 200, "{}", ctx);
+                let mut u = r.url().clone(); u.set_fragment(None);
+                assert_eq!(u.as_str(), last, "final URL: {}", ctx);
+            } else {
+                assert!(matches!(res.map_err(|e| e.into_kind()), Err(crate::ErrorKind::TooManyRedirections)), "too many redirections expected: {}", ctx);
+                assert_eq!(sent.len() as u32, max + 1, "at most max_redirections + 1 requests: {} -> {:?}", ctx, sent);
+            }
+        } }
+    } } }
+    for p in ["/noloc", "/badloc", "/ftploc"] { assert!(s.get(format!("{}{}", base, p)).send().is_err(), "{} must be an error", p); cases += 1; }
+    println!("VP-NATIVE redirect_matrix cases={}", cases);
+}
+
 /// C08/C10/C11 across hops: the proxy decision is taken again for every hop (no_proxy boundary crossed by a same-scheme redirect)
 #[test]
 fn vp_native_redirect_across_no_proxy_boundary() {
